@@ -198,9 +198,11 @@ theorem good_orphanStep (acc : NState × Bool × List Nat) (o : Block) (h : Good
     Good (orphanStep acc o).1 := by
   unfold orphanStep
   split
-  · have := good_acceptBlock { acc.1 with orphans := acc.1.orphans.filter (·.id != o.id) } o (good_orphans _ _ h)
+  · have := good_acceptBlock acc.1 o h
     simp only
-    split <;> exact this
+    split
+    · exact this
+    · exact good_orphans _ _ this
   · exact h
 
 theorem good_processOrphans (fuel : Nat) (s : NState) (q : List Nat) (h : Good s) :
@@ -337,9 +339,11 @@ theorem sameG_processOrphans (fuel : Nat) (s : NState) (q : List Nat) : SameG (p
           refine (ihk _).trans ?_
           unfold orphanStep
           split
-          · have := sameG_acceptBlock { acc.1 with orphans := acc.1.orphans.filter (·.id != o.id) } o
+          · have := sameG_acceptBlock acc.1 o
             simp only
-            split <;> exact this
+            split
+            · exact this
+            · exact ⟨this.1, this.2⟩
           · exact ⟨rfl, rfl⟩
       have hg := hstep (s.orphans.filter (·.prev == id)) (s, true, queue)
       split
